@@ -565,6 +565,44 @@ func ruleP1(r *Run) {
 		}
 		return true
 	})
+	// every send on the semaphore in Acquire is one case of a select that also waits on the caller's context
+	{
+		aparents := parentMap(afd.Body)
+		ctxParams := map[types.Object]bool{}
+		for _, pv := range paramsOf(info, afd.Type) {
+			if isNamed(pv.Type(), "context", "Context") {
+				ctxParams[pv] = true
+			}
+		}
+		bare := ""
+		ast.Inspect(afd.Body, func(n ast.Node) bool {
+			s, ok := n.(*ast.SendStmt)
+			if !ok || fieldOf(info, s.Chan) != semField || semField == nil {
+				return true
+			}
+			listens := false
+			if cc, ok := aparents[s].(*ast.CommClause); ok && cc.Comm == ast.Stmt(s) {
+				if sel, ok := aparents[aparents[cc]].(*ast.SelectStmt); ok {
+					for _, cs := range sel.Body.List {
+						if es, ok := cs.(*ast.CommClause).Comm.(*ast.ExprStmt); ok {
+							if u, ok := ast.Unparen(es.X).(*ast.UnaryExpr); ok && u.Op == token.ARROW {
+								if c, ok := ast.Unparen(u.X).(*ast.CallExpr); ok && methodName(c) == "Done" {
+									if se, ok := ast.Unparen(c.Fun).(*ast.SelectorExpr); ok && ctxDerived(info, afd.Body, se.X, ctxParams, 0) {
+										listens = true
+									}
+								}
+							}
+						}
+					}
+				}
+			}
+			if !listens {
+				bare = p.Rel(s.Pos())
+			}
+			return true
+		})
+		r.Check(bare == "", "a call queued in the limiter honours its own context", afd.Pos(), "every wait for a permit is a select with the caller's context", "Acquire waits for a permit with a bare send on the semaphore (at "+bare+"): a call that is queued behind a full limiter ignores its deadline and its cancellation, and Abort cannot reach it - it returns only when some other request ends")
+	}
 	r.Check(sends >= 1 && recvs == 1, "Release returns exactly one permit to the semaphore Acquire takes from", rfd.Pos(), "one receive on the semaphore channel", "Release does not perform exactly one receive on the channel Acquire sends to")
 	// timeout branch of Acquire performs no send: in the select, the ctx.Done() clause body has no send
 	okTimeout := true
